@@ -168,7 +168,7 @@ def kernel_sums(ctx, rule="R05.5"):
         ctx.check(ok, rule, "%s::%s" % (KS, kname), "field[k] = sum_i cond[i] sum_j M[i,j] v[j,k]" + ("; error[k] = sum_i v[i,k] sum_j M[i,j] v[j,k]" if kname.endswith("variance") else ""), "kernel-sum")
         z = [n for n in ast.walk(k) if isinstance(n, ast.Assign) and ast.unparse(n.targets[0]) == "krig_fac"]
         loops = [n for n in ast.walk(k) if isinstance(n, ast.For) and ast.unparse(n.target) == "i"]
-        ok = len(z) == 1 and ast.unparse(z[0].value) == "0.0" and len(loops) == 1 and any(s is z[0] for s in loops[0].body)
+        ok = len(z) == 1 and isinstance(z[0].value, ast.Constant) and type(z[0].value.value) in (int, float) and z[0].value.value == 0 and len(loops) == 1 and any(s is z[0] for s in loops[0].body)
         ctx.check(ok, rule, "%s::%s" % (KS, kname), "the inner accumulator is reset for every row i", "reset")
         # what is handed back, in the order the Python side unpacks it: (estimate, variance)
         rets = [r for r in ast.walk(k) if isinstance(r, ast.Return) and r.value is not None]
@@ -289,7 +289,9 @@ def variants(ctx, rule="R05.7"):
 
 
 def run(ctx):
-    from .C18 import mirror_pipelines
+    from .C18 import get_mean_pipeline, mirror_pipelines
+
+    get_mean_pipeline(ctx, rule="R05.14")  # the kriged mean leaves through the same pipeline as the fields (shared with C18)
 
     mirror_pipelines(ctx, rule="R05.13")  # the data vector of the system is the conditioning values taken through the exact inverse of what post_field applies (shared with C06 / C18)
     from .C14 import no_shared_fields
@@ -301,6 +303,7 @@ def run(ctx):
     _K.accumulator_reset(ctx, rule="R05.11")
     _K.accumulator_complete(ctx, rule="R05.11")
     _K.build_independent(ctx, rule="R05.11")
+    _K.kernel_shape(ctx, rule="R05.11")
     _K.full_extent(ctx, rule="R05.11")
     _K.zero_init(ctx, rule="R05.11")
     from . import C15_bounds
